@@ -1982,6 +1982,13 @@ fn gen_c17(rng: &mut Rng, seed: u64, index: u64, long: bool) -> Scenario {
                     let len = *g.rng.pick(&[0usize, 1, 1, 2, 3, 5, 64]);
                     g.ops.push(Op::CFfInto { h: 1, len });
                 }
+                9 => {
+                    let which = g.rng.below(16) as u8;
+                    let len = *g.rng.pick(&[0usize, 0, 1, 2, 3, 4, 5, 7, 8, 16, 33, 200]);
+                    let seed = g.rng.next_u64();
+                    let via_clone = g.rng.chance(0.3);
+                    g.ops.push(Op::CTokUtil { which, seed, len, via_clone });
+                }
                 6 => {
                     let k = g.rng.range(1, 4);
                     let picks: Vec<Pick> = (0..k).map(|_| g.any_pick()).collect();
